@@ -10,7 +10,7 @@ GO=/opt/veriftools/go1.26.8/bin/go
 if [ -n "${VP_RUN_REPO:-}" ]; then export VERIF_REPO=$VP_RUN_REPO; echo "using repo snapshot $VERIF_REPO"; fi
 SEEDS=${@:-7777}
 for seed in $SEEDS; do
-  for p in C04 C01 C02 C05 C06 C15 C03 C13 C10; do
+  for p in ${PROPS:-C10 C05 C01 C02 C15 C06 C03 C13 C04}; do
     echo "=== $p seed=$seed $(date +%T)"
     VERIF_SEED=$seed ./bin/check run $p --tier thorough 2>&1 | grep -vE "^  |^$|^Goroutine|^Previous|^Write at|^Read at|WARNING: DATA|^.Log. " | cut -c1-1500 | tail -25
     echo "=== $p seed=$seed exit=${PIPESTATUS[0]}"
